@@ -23,7 +23,9 @@ func (a flags) mut() bool { return a.w || a.n }
 const (
 	gasTab    = 100
 	policyTab = 102
-	extAcc    = 8  // an account that is not a contract
+	mgmtTab   = 103
+	blockTab  = 104
+	extAcc    = 8  // an account that is not a contract (so are 6 and 7)
 	senderAcc = 50 // the fee payer
 	maxFeePB  = 100000000
 )
@@ -112,7 +114,7 @@ func natStep(n *Node, self int, f flags, view func(mkey) (int, bool)) *natOut {
 			out.ws = []wnode{{k: mkey{tab, n.Nat.To}, v: tb + n.Nat.Amt}, {k: mkey{tab, self}, v: bal - n.Nat.Amt}}
 		}
 		out.evs = []event{{tab, n.Nat.Amt}}
-		if n.Nat.To < extAcc {
+		if n.Nat.To < numContracts {
 			out.cb = n.Nat.To
 		}
 		return out
@@ -124,6 +126,32 @@ func natStep(n *Node, self int, f flags, view func(mkey) (int, bool)) *natOut {
 			return nil
 		}
 		return &natOut{ws: []wnode{{k: mkey{policyTab, 0}, v: n.Nat.Val}}, cb: -1}
+	case natBlock:
+		if !(f.r && f.w && f.n) {
+			return nil
+		}
+		if _, ok := view(mkey{blockTab, n.Nat.Val}); ok {
+			return &natOut{cb: -1}
+		}
+		return &natOut{ws: []wnode{{k: mkey{blockTab, n.Nat.Val}, v: 1}}, cb: -1}
+	case natUnblock:
+		if !(f.r && f.w) {
+			return nil
+		}
+		if _, ok := view(mkey{blockTab, n.Nat.Val}); ok {
+			return &natOut{ws: []wnode{{k: mkey{blockTab, n.Nat.Val}, del: true}}, cb: -1}
+		}
+		return &natOut{cb: -1}
+	case natDeploy:
+		if !(f.r && f.w && f.c && f.n) {
+			return nil
+		}
+		if _, ok := view(mkey{mgmtTab, n.Nat.Val}); ok {
+			return nil
+		}
+		id, _ := view(mkey{mgmtTab, 99})
+		return &natOut{ws: []wnode{{k: mkey{mgmtTab, 99}, v: id + 1}, {k: mkey{mgmtTab, n.Nat.Val}, v: id}},
+			evs: []event{{mgmtTab, n.Nat.Val}}, cb: -1}
 	}
 	panic("bad native op")
 }
